@@ -28,7 +28,13 @@ RULE = ('random base arrays (1-4 axes, 0-7 elements per axis, element = C-order 
         'in 12 % of the gaps; per request the outcome, the delivered value, the transform calls made and the chunks read '
         'before an element was requested are compared with the atomic, all-or-nothing, cached computation. A history is '
         'non-trivial when a request after a faulted one exists and some object has >= 2 transforms; distinct by '
-        '(shape, objects, history).')
+        '(shape, objects, history). Store histories (stream store): 1-2 recording chunk stores, 1-3 indexers (45 % nested) '
+        'with contiguous non-empty first-stage indices and 0-2 transforms, a history of 4-14 public accesses (construction, '
+        '.shape, .dtype, .dataset, len, str, repr, indexer[k], get([..], k); 20 % of the later steps repeat an earlier '
+        'request); after every access the increment of the stores\' get_chunk logs (store, array, slices) is compared with '
+        'the store-history model and a numpy statement of "whole chunks overlapping the region, each once", non-fetch '
+        'accesses must read nothing and advertise the numpy shape/dtype. A store history is non-trivial with >= 2 element '
+        'requests and an advertisement; distinct by (shape, chunks, indexers, history).')
 ASSUMPTIONS = ['numpy outer indexing (np.take per axis) is the oracle; dask own slicing/take/cull/store are exercised, not modelled',
                'transforms of the correspondence: elementwise 2x+1 -> float64, x[..., 0], elementwise -x -> int32',
                'read sets are compared only for requests whose composed region is non-empty on every axis (F34 otherwise)',
@@ -1628,8 +1634,10 @@ def compare_store(ctx, case, mo):
     if mo is not None and mo != SX_ERR:
         model = [None if o == [0] else sorted((c[0], c[1], tuple((a, b) for a, b in c[2])) for c in o[1]) for o in mo[0]]
         if mo[2] != [0, 1]:
+            # (also a stale binary built from another tree while the translator refuses the current one)
             ctx.disagree('store;translated_compute_counts', cj, mo[2], [0, 1], 'the translator counts a dask computation '
                          'in an accessor that must not compute (or not exactly one in get())', kind='tie')
+            model = None
     else:
         ctx.extra['store_model_binary'] = 'not available: python oracle only'
     for n, (h, r) in enumerate(zip(case['hist'], impl)):
